@@ -87,6 +87,10 @@ def run(ctx):
             ctx.ob("C02.H.no-early-exit", f.key, "tokens between declaration and finish (stream _%s)" % s, not between,
                    "early-exit tokens inside the accumulation region: %s" % [t.text for t in between])
         ctx.ob("C02.H.fn-body-found", f.key, "fn-body template with an accumulator", found >= 1, "%d fn-body templates recognised" % found)
+    # "required item absent" is a mistake: a field gets a synthesised default only under the documented
+    # conditions, so that every other field without a default keeps its presence check
+    from .C01 import default_synthesis_rules
+    default_synthesis_rules(ctx, "C02.req")
     # ErrorCheck = finish() [map_err] ?
     f = ctx.fn(common.TOK % "error::ErrorCheck<'_>")
     if f:
